@@ -595,8 +595,9 @@ def run_case(case, obs):
     cls = case['cls']
     sp = gen.pixel_region_spec(prng, cls=cls, size=case['size'], center=(case['cx'], case['cy']), angle=case['angle'], include='absent',
                                max_aspect=4.0,
-                               # simple polygons only (clipped signed area = even-odd area): star-shaped ones, and sheared boxes on dyadic coordinates
-                               poly_kind=(('starsafe' if case['rs'] % 4 else 'parallelogram') if cls == 'PolygonPixelRegion' else None))
+                               # simple polygons only (clipped signed area = even-odd area): star-shaped ones, sheared boxes on dyadic coordinates, L-shapes
+                               # whose edges are all parallel to the pixel axes
+                               poly_kind=({0: 'parallelogram', 1: 'rectilinear'}.get(case['rs'] % 4, 'starsafe') if cls == 'PolygonPixelRegion' else None))
     sp['p'].pop('origin', None) if False else None
     reg = S.build(sp)
     bb = reg.bounding_box
